@@ -407,6 +407,7 @@ func checkAssocConstants(c *Ctx, ev *evaluator, rule string) {
 		}
 		n++
 		var got []string
+		undecided := false
 		for _, st := range cs.clause.Body {
 			ast.Inspect(st, func(nd ast.Node) bool {
 				kv, ok := nd.(*ast.KeyValueExpr)
@@ -414,12 +415,24 @@ func checkAssocConstants(c *Ctx, ev *evaluator, rule string) {
 					return true
 				}
 				if id, ok := kv.Key.(*ast.Ident); ok && id.Name == "Associativity" {
-					if o := objOf(info, kv.Value); o != nil {
+					if call, isCall := ast.Unparen(kv.Value).(*ast.CallExpr); isCall {
+						// a helper of the package that maps the production index to the constant: evaluate it for this production
+						if name, ok := evalIndexHelper(ev, call, i); ok {
+							got = append(got, name)
+						} else {
+							got = append(got, "<"+types.ExprString(kv.Value)+">")
+							undecided = true
+						}
+					} else if o := objOf(info, kv.Value); o != nil {
 						got = append(got, o.Name())
 					}
 				}
 				return true
 			})
+		}
+		if undecided {
+			c.Undecided(rule, fmt.Sprintf("%s: production %d (%s) records associativity %s", trimMod(ev.pkg.PkgPath), i, cs.prod, w), cs.clause.Pos(), fmt.Sprintf("the associativity is computed by %v, which was not understood", got))
+			continue
 		}
 		c.Check(rule, fmt.Sprintf("%s: production %d (%s) records associativity %s", trimMod(ev.pkg.PkgPath), i, cs.prod, w), cs.clause.Pos(),
 			len(got) == 1 && got[0] == w, fmt.Sprintf("the action records %v for a %s directive", got, cs.prod.body[0].name), cs.prod.body[0].name+" \"+\"")
@@ -618,3 +631,94 @@ func checkTreeBuilder(c *Ctx, g *ebnfGrammar) {
 
 var _ = strings.TrimSpace
 var _ *packages.Package
+
+// evalIndexHelper: call is f(i) with i the evaluator's production-index parameter and f a function of the package whose body
+// selects a constant by comparing its parameter with integer constants (switch or if chain). Returns the name of the constant
+// it yields for production index idx.
+func evalIndexHelper(ev *evaluator, call *ast.CallExpr, idx int) (string, bool) {
+	info := ev.pkg.TypesInfo
+	fo, ok := objOf(info, call.Fun).(*types.Func)
+	if !ok || fo.Pkg() != ev.pkg.Types || len(call.Args) != 1 {
+		return "", false
+	}
+	if id, ok := ast.Unparen(call.Args[0]).(*ast.Ident); !ok || info.Uses[id] != types.Object(ev.idxParam) {
+		return "", false
+	}
+	hd := declOfFunc(ev.pkg, fo)
+	if hd == nil || hd.Body == nil || hd.Type.Params == nil || len(hd.Type.Params.List) != 1 || len(hd.Type.Params.List[0].Names) != 1 {
+		return "", false
+	}
+	par := info.Defs[hd.Type.Params.List[0].Names[0]]
+	isPar := func(e ast.Expr) bool {
+		id, ok := ast.Unparen(e).(*ast.Ident)
+		return ok && info.Uses[id] == par
+	}
+	nameOf := func(e ast.Expr) (string, bool) {
+		if o := objOf(info, e); o != nil {
+			if _, isConst := o.(*types.Const); isConst {
+				return o.Name(), true
+			}
+		}
+		return "", false
+	}
+	var exec func(list []ast.Stmt) (string, bool, bool) // name, returned, understood
+	exec = func(list []ast.Stmt) (string, bool, bool) {
+		for _, st := range list {
+			switch x := st.(type) {
+			case *ast.ReturnStmt:
+				if len(x.Results) != 1 {
+					return "", true, false
+				}
+				n, ok := nameOf(x.Results[0])
+				return n, true, ok
+			case *ast.SwitchStmt:
+				if x.Tag == nil || !isPar(x.Tag) {
+					return "", false, false
+				}
+				var chosen, def *ast.CaseClause
+				for _, cc := range x.Body.List {
+					cl := cc.(*ast.CaseClause)
+					if cl.List == nil {
+						def = cl
+					}
+					for _, e := range cl.List {
+						if v, ok := constInt(info, e); ok && int(v) == idx {
+							chosen = cl
+						}
+					}
+				}
+				if chosen == nil {
+					chosen = def
+				}
+				if chosen != nil {
+					if n, ret, ok := exec(chosen.Body); ret || !ok {
+						return n, ret, ok
+					}
+				}
+			case *ast.IfStmt:
+				b, ok := ast.Unparen(x.Cond).(*ast.BinaryExpr)
+				if !ok || b.Op != token.EQL || !isPar(b.X) {
+					return "", false, false
+				}
+				v, ok := constInt(info, b.Y)
+				if !ok {
+					return "", false, false
+				}
+				if int(v) == idx {
+					if n, ret, ok := exec(x.Body.List); ret || !ok {
+						return n, ret, ok
+					}
+				} else if blk, ok := x.Else.(*ast.BlockStmt); ok {
+					if n, ret, ok := exec(blk.List); ret || !ok {
+						return n, ret, ok
+					}
+				}
+			default:
+				return "", false, false
+			}
+		}
+		return "", false, true
+	}
+	n, ret, ok := exec(hd.Body.List)
+	return n, ret && ok
+}
